@@ -44,3 +44,44 @@ func init() {
 	intrinsics["sync/atomic.StorePointer"] = func(fr *frame, a []Value) Value { fr.e.store(nil, a[0], a[1], token.NoPos); return nil }
 	_ = fmt.Sprint
 }
+
+// sync.Pool: deterministic model of the single-goroutine behaviour of the real pool without the
+// race detector: Get returns the item Put most recently (LIFO), else New().  (A pool may return any
+// earlier item or a new one; programs must not depend on which.  The reuse case is the one in which
+// stale aliases show.)
+func init() {
+	intrinsics["(*sync.Pool).Get"] = func(fr *frame, a []Value) Value {
+		e := fr.e
+		p := e.path
+		pool, ok := a[0].(*Value)
+		if !ok || pool == nil {
+			e.throw("invalid memory address or nil pointer dereference", fr.callPos)
+		}
+		if items := p.pools[pool]; len(items) > 0 {
+			it := items[len(items)-1]
+			p.pools[pool] = items[:len(items)-1]
+			return it
+		}
+		nf := *e.fieldPtr(pool, e.namedType("sync", "Pool"), "New")
+		if nf == nil {
+			return Iface{}
+		}
+		if c, ok := nf.(*Closure); ok && c == nil {
+			return Iface{}
+		}
+		return e.call(fr, fr.callPos, nf, nil)
+	}
+	intrinsics["(*sync.Pool).Put"] = func(fr *frame, a []Value) Value {
+		e := fr.e
+		p := e.path
+		pool := a[0].(*Value)
+		if x, ok := a[1].(Iface); ok && x.T == nil {
+			return nil
+		}
+		if p.pools == nil {
+			p.pools = map[*Value][]Value{}
+		}
+		p.pools[pool] = append(p.pools[pool], a[1])
+		return nil
+	}
+}
